@@ -25,6 +25,8 @@ def _run_one(item):
         dim = {"nbar": [float(np.real(st.mean_photon(i)[0])) for i in range(st.num_modes)],
                "nvar": [float(np.real(st.mean_photon(i)[1])) for i in range(st.num_modes)],
                "fidvac": float(np.real(st.fidelity_vacuum()))}
+        if hasattr(st, "purity"):
+            dim["purity"] = float(np.real(st.purity()))
         if cfg != "bosonic":
             dim["p0"] = float(np.real(st.fock_prob([0] * st.num_modes, **({} if cfg != "gaussian" else {"cutoff": 6}))))
             dim["p1"] = float(np.real(st.fock_prob([1] + [0] * (st.num_modes - 1), **({} if cfg != "gaussian" else {"cutoff": 6}))))
